@@ -44,6 +44,10 @@ func registerGhosts(v *Verifier) {
 	v.ghostFuns["validValAddr"] = ghostSig{[]string{sortStr}, "Bool"}
 	v.ghostFuns["decFromStr"] = ghostSig{[]string{sortStr}, "Int"}
 	v.ghostFuns["decFromStrOk"] = ghostSig{[]string{sortStr}, "Bool"}
+	v.ghostFuns["didMethod"] = ghostSig{[]string{sortStr}, sortStr}
+	v.ghostFuns["didId"] = ghostSig{[]string{sortStr}, sortStr}
+	v.ghostFuns["didParses"] = ghostSig{[]string{sortStr}, "Bool"}
+	v.ghostFuns["unixOf"] = ghostSig{[]string{"Int"}, "Int"}
 	v.ghostFuns["blockedAddr"] = ghostSig{[]string{sortAddr}, "Bool"}
 	v.ghostFuns["strcontains"] = ghostSig{[]string{sortStr, sortStr}, "Bool"}
 	v.ghostFuns["strhasprefix"] = ghostSig{[]string{sortStr, sortStr}, "Bool"}
@@ -765,6 +769,41 @@ func init() {
 		cc.e.g().DeclFun("dlgShares", []string{"Int"}, "Int")
 		cc.e.panicIf(fmt.Sprintf("(= %s 0)", cc.arg(0)), "DelegationI.GetShares on a nil delegation", cc.ins)
 		return []string{fmt.Sprintf("(dlgShares %s)", cc.arg(0))}, true
+	}
+}
+
+func init() {
+	// sao-did parser.Parse(did): a fresh *DID whose Method and ID are functions of the string (uninterpreted didMethod/didId)
+	extRules["github.com/SaoNetwork/sao-did/parser.Parse"] = func(cc *callCtx) ([]string, bool) {
+		e := cc.e
+		g := e.g()
+		pt, ok := cc.sig.Results().At(0).Type().(*types.Pointer)
+		if !ok {
+			return nil, false
+		}
+		g.DeclFun("didMethod", []string{sortStr}, sortStr)
+		g.DeclFun("didId", []string{sortStr}, sortStr)
+		g.DeclFun("didParses", []string{sortStr}, "Bool")
+		ds := g.SortOf(pt.Elem())
+		st, _ := types.Unalias(pt.Elem()).Underlying().(*types.Struct)
+		if st == nil {
+			return nil, false
+		}
+		v := e.havoc(pt.Elem(), "did")
+		for i := 0; i < st.NumFields(); i++ {
+			switch st.Field(i).Name() {
+			case "Method":
+				e.r.assume(fmt.Sprintf("(= %s (didMethod %s))", g.FieldSel(ds, st, i, v), cc.arg(0)))
+			case "ID":
+				e.r.assume(fmt.Sprintf("(= %s (didId %s))", g.FieldSel(ds, st, i, v), cc.arg(0)))
+			}
+		}
+		ref := e.allocRef()
+		h := e.heapFor(pt.Elem())
+		e.setState(h, "", fmt.Sprintf("(store %s %s %s)", e.getState(h), ref, v))
+		err := e.havocSort("Int", "perr")
+		e.r.assume(fmt.Sprintf("(= (= %s 0) (didParses %s))", err, cc.arg(0)))
+		return []string{fmt.Sprintf("(ite (= %s 0) %s 0)", err, ref), err}, true
 	}
 }
 
